@@ -32,7 +32,7 @@ def run(tier, seed, replay=None):
     except vbuild.BuildError as e:
         ob["ok"] = False
         ob["failures"].append("correspondence harness does not compile against the current source: " + str(e)[-400:])
-        return ck.finish(ob, rule="-")
+        return ck.finish(ob, rule="SavePotTab rows judged at the requested grid points (steps dividing the range, not dividing it, 0.01, larger than the range). -")
     if not ob.get("driver_ok", True):
         return ck.finish(ob, rule="-")
     tmp = os.path.join(vlib.VERIF, ".cache", "tmp")
